@@ -356,9 +356,161 @@ def leg_strace(ns, res, spec):
         shutil.rmtree(d, ignore_errors=True)
 
 
+# ---------------------------------------------------------------------------------------------------------------
+# rich cells: list tables are not limited to strings.  Numbers, None and (mutable) list-valued cells, observed with fully deep snapshots
+
+RICH_QUERIES = [
+    'select *', 'select a.*', 'select a1, a2', 'select a2', 'select a2, a2', 'select *, a2', 'select a2 where a1 is not None', 'select top 2 a2, a3',
+    'select distinct a1, a3', 'select distinct count a1', 'select a1, a2 order by a1', 'select a2 order by len(a2) desc', 'select a1, UNNEST(a2)', 'select a1, unnest(a2), a2',
+    'select a1, ARRAY_AGG(a2) group by a1', 'select a1, ARRAY_AGG(a3) group by a1', 'select a1, SUM(a2) group by a1', 'select SUM(a2)', 'select SUM(a3)', 'select a1, MAX(a2), MIN(a2) group by a1',
+    'select a1, ANY_VALUE(a2) group by a1', 'select MEDIAN(a3), AVG(a3), VARIANCE(a3)', 'select COUNT(a2), a1 group by a1', 'select a2 + a2', 'select a2 + [a1]', 'select a2 * 2', 'select a2[0]',
+    'select max(a2, a2)', 'select sum(a2, [])', 'select sorted(a2)', 'select list(reversed(a2))', 'select a2[:]', 'select a2[1:] + a2[:1]',
+    'update a1 = a2', 'update a2 = a3', 'update a3 = a2', 'update a2 = a2 + a2', 'update a1 = a2, a2 = a1', 'update a1 = None where a3 is None',
+    'select * join b on a1 == b1', 'select b.* join b on a1 == b1', 'select a2, b2 left join b on a1 == b1', 'select b2 join b on a1 == b1', 'select a1, SUM(b2) join b on a1 == b1 group by a1',
+    'select a1, ARRAY_AGG(b2) join b on a1 == b1 group by a1', 'update a2 = b2 join b on a1 == b1', 'select UNNEST(b2), a2 join b on a1 == b1', 'select MAX(b2), MIN(b2) join b on a1 == b1',
+    'select * except a1', 'select * except a2', 'select a2 where len(a2) > 1', 'select NR, a2 limit 1',
+]
+
+
+def rich_cell(rng):
+    r = rng.random()
+    if r < 0.2:
+        return rng.choice(['a', 'b', '1', '10', '', 'x y'])
+    if r < 0.35:
+        return rng.choice([0, 1, 2, 10, -3])
+    if r < 0.42:
+        return rng.choice([0.5, 2.0, -1.25])
+    if r < 0.5:
+        return None
+    n = rng.choice([0, 1, 2, 2, 3])
+    return [rng.choice(['x', 'y', 1, 2, None, 1.5, ['n', 1]]) for _ in range(n)]
+
+
+def rich_table(rng, keys):
+    t = []
+    for _ in range(rng.randrange(1, 6)):
+        t.append([rng.choice(keys), [rng.choice(['x', 'y', 1, 2, None, 3.5, ['n', 1]]) for _ in range(rng.choice([0, 1, 2, 3]))] if rng.random() < 0.8 else rich_cell(rng), rich_cell(rng)])
+    return t
+
+
+JS_RICH_QUERIES = ['select *', 'select a.*', 'select a1, a2', 'select a2', 'select a2, a2', 'select *, a2', 'select top 2 a2, a3', 'select a1, a2 order by a1', 'select a1, UNNEST(a2)',
+                   'select a1, ARRAY_AGG(a2) group by a1', 'select a1, ANY_VALUE(a2) group by a1', 'select a2.concat(a2)', 'select a2.slice()', 'update a1 = a2', 'update a3 = a2', 'update a1 = a2, a2 = a1',
+                   'select * join b on a1 == b1', 'select b.* join b on a1 == b1', 'select a2, b2 left join b on a1 == b1', 'select b2 join b on a1 == b1', 'select a1, ARRAY_AGG(b2) join b on a1 == b1 group by a1',
+                   'update a2 = b2 join b on a1 == b1', 'select * except a1', 'select NR, a2 limit 1', 'select distinct count a1']
+
+
+def leg_rich_js(res, spec):
+    """The same on the JS port: arrays with nested array cells as the source, the JS CSV writer (and the plain table writer) as the sink."""
+    import json
+    from ..js import bridge
+    node = bridge.Node.start()
+    if node is None:
+        res.notes.append('js rich-cells leg: unavailable (no node)')
+        return
+    rng = random.Random(spec['seed'] * 32452843 + spec['i'])
+    try:
+        reqs = []
+        for n in range(spec['n']):
+            keys = rng.choice([['k1', 'k2'], [1, 2], ['1', 'k']])
+            A, B = rich_table(rng, keys), rich_table(rng, keys)
+            for t in (A, B):
+                for r in t:
+                    r[1] = r[1] if isinstance(r[1], list) else [r[1]]
+            names = rng.choice([None, None, ['key', 'vals', 'other']])
+            q = JS_RICH_QUERIES[(n + spec['i']) % len(JS_RICH_QUERIES)]
+            use_b = ' join ' in q
+            reqs.append({'query': q, 'input': A, 'join': B if use_b else None, 'input_cols': names, 'join_cols': (['bkey', 'bvals', 'bother'] if names else None) if use_b else None,
+                         'policy': rng.choice(['quoted', 'simple', 'quoted_rfc']), 'delim': rng.choice([',', ';'])})
+        outs = node.call({'op': 'query_csv_sink_batch', 'cases': reqs})['results']
+        for req, o in zip(reqs, outs):
+            res.evaluations += 1
+            res.count('js_rich_csv_sink_runs')
+            res.count('js_rich_csv_sink_runs_failing' if o['error'] else 'js_rich_csv_sink_runs_succeeding')
+            res.nontrivial('js-rich', req['query'], json.dumps(req['input']), json.dumps(req['join']))
+            if not o['input_unchanged'] or not o['join_unchanged']:
+                res.violation('js:sources-modified:rich-cells:csv-writer', '[js/CSVWriter on array input] %s (error %r) changed its sources: input %s -> %s ; join %s -> %s' % (
+                    req['query'], o['error'] and o['error']['msg'][:80], json.dumps(req['input']), o['input_after'], json.dumps(req['join']), o['join_after']), {'leg': 'rich-js', 'req': req})
+        outs = node.call({'op': 'query_batch', 'cases': [{'query': r['query'], 'input': r['input'], 'join': r['join'], 'input_cols': r['input_cols'], 'join_cols': r['join_cols']} for r in reqs]})['results']
+        for req, o in zip(reqs, outs):
+            res.evaluations += 1
+            res.count('js_rich_table_runs')
+            if not (o['input_unchanged'] and o['join_unchanged'] and o['identity_ok'] and o['scribble_safe']) or o['aliased_rows']:
+                res.violation('js:sources-modified:rich-cells:query_table', '[js/query_table] %s (error %r) changed or aliased its sources: %r' % (req['query'], o['error'] and o['error']['msg'][:80], {k: o[k] for k in ('input_unchanged', 'join_unchanged', 'identity_ok', 'scribble_safe', 'aliased_rows')}), {'leg': 'rich-js', 'req': req})
+    finally:
+        node.close()
+
+
+def leg_rich(ns, res, spec):
+    import copy
+    import pandas as pd
+    rng = random.Random(spec['seed'] * 15485863 + spec['i'])
+    leg_rich_js(res, spec)
+    for n in range(spec['n']):
+        keys = rng.choice([['k1', 'k2'], [1, 2], ['1', 1, 'k']])
+        A, B = rich_table(rng, keys), rich_table(rng, keys)
+        names = rng.choice([None, None, ['key', 'vals', 'other']])
+        bnames = None if names is None else ['bkey', 'bvals', 'bother']
+        qtext = RICH_QUERIES[(n + spec['i']) % len(RICH_QUERIES)] if n % 7 else rng.choice(RICH_QUERIES)
+        use_b = ' join ' in qtext
+        snapA, snapB = copy.deepcopy(A), copy.deepcopy(B)
+        reprA, reprB = repr(A), repr(B)
+        case = {'leg': 'rich', 'query_text': qtext, 'A': snapA, 'B': snapB if use_b else None, 'a_names': names, 'b_names': bnames if use_b else None}
+        res.nontrivial(qtext, reprA, reprB)
+
+        def check(front, err):
+            res.evaluations += 1
+            res.count('rich_runs')
+            res.count('rich_runs:' + front)
+            res.count('rich_runs_failing' if err else 'rich_runs_succeeding')
+            if repr(A) != reprA or A != snapA or repr(B) != reprB or B != snapB:
+                res.violation('py:sources-modified:rich-cells:%s' % front, '[py/%s] %s (error %s) changed its sources: A %s -> %r ; B %s -> %r' % (front, qtext, err, reprA, A, reprB, B), dict(case, front=front))
+                A[:] = copy.deepcopy(snapA)
+                B[:] = copy.deepcopy(snapB)
+
+        # (1) query_table
+        err = None
+        try:
+            ns.rbql.query_table(qtext, A, [], [], B if use_b else None, names, bnames if use_b else None, [])
+        except Exception as e:
+            err = type(e).__name__
+        check('query_table', err)
+        # (2) the CSV writer as the sink of a list source (it stringifies what it is handed)
+        for policy, dlm in (('quoted', ','), ('simple', '\t')):
+            err = None
+            try:
+                w = ns.csv.CSVWriter(io.StringIO(newline=''), False, None, dlm, policy)
+                reg = ns.engine.ListTableRegistry([ns.engine.ListTableInfo('b', B, bnames)]) if use_b else None
+                ns.rbql.query(qtext, ns.engine.TableIterator(A, names), w, [], reg)
+            except Exception as e:
+                err = type(e).__name__
+            check('csv-writer-' + policy, err)
+        # (3) probes with the mutating sink
+        o = boundary.run_py(ns, qtext, A, B if use_b else None, names, bnames if use_b else None, mutating_sink=True)
+        check('query+mutating-sink', o.error)
+        if o.aliased:
+            res.violation('py:output-aliases-input:rich-cells', '[py] output rows alias input rows %r for %s' % (o.aliased[:5], qtext), dict(case, front='probe'))
+        # (4) pandas: object columns hold the very same list objects
+        if n % 3 == 0 and names is not None:
+            dfa = pd.DataFrame(copy.deepcopy(snapA), columns=names)
+            dfb = pd.DataFrame(copy.deepcopy(snapB), columns=bnames)
+            a0, b0 = repr(dfa.values.tolist()), repr(dfb.values.tolist())
+            err = None
+            try:
+                ns.rbql.query_pandas_dataframe(qtext, dfa, [], dfb if use_b else None)
+            except Exception as e:
+                err = type(e).__name__
+            res.evaluations += 1
+            res.count('rich_runs:pandas')
+            if repr(dfa.values.tolist()) != a0 or repr(dfb.values.tolist()) != b0:
+                res.violation('py:sources-modified:rich-cells:pandas', '[py/pandas] %s (error %s) changed a dataframe: %s -> %r ; %s -> %r' % (qtext, err, a0, dfa.values.tolist(), b0, dfb.values.tolist()), dict(case, front='pandas'))
+        if n % 997 == 0:
+            res.sample({'leg': 'rich', 'query': qtext, 'A': reprA, 'B': reprB if use_b else None})
+
+
 def plan(tier, seed):
     k = NSHARDS[tier]
     specs = [{'kind': 'lists', 'i': i, 'n': LIST_CASES[tier] // k} for i in range(k)]
+    specs += [{'kind': 'rich', 'i': i, 'n': 600 if tier == 'quick' else 8000} for i in range(4)]
     specs += [{'kind': 'pandas', 'i': i, 'n': 700 if tier == 'quick' else 7000} for i in range(2)]
     specs += [{'kind': 'sqlite', 'i': i, 'n': 400 if tier == 'quick' else 4000} for i in range(2)]
     specs += [{'kind': 'csv', 'i': i, 'n': 300 if tier == 'quick' else 3000} for i in range(2)]
@@ -368,13 +520,13 @@ def plan(tier, seed):
 
 def run_shard(spec, res):
     ns = env.import_rbql()
-    {'lists': leg_lists, 'pandas': leg_pandas, 'sqlite': leg_sqlite, 'csv': leg_csv, 'strace': leg_strace}[spec['kind']](ns, res, spec)
+    {'lists': leg_lists, 'rich': leg_rich, 'pandas': leg_pandas, 'sqlite': leg_sqlite, 'csv': leg_csv, 'strace': leg_strace}[spec['kind']](ns, res, spec)
 
 
 def summarize(tier, seed, m):
     return {
-        'rule': 'the query generators of C01-C05 (every query shape) plus deliberately failing variants (syntax error, parsing error, runtime error, unknown join table), each executed (1) through rbql.query with probes and snapshots, (2) through the icontract-armed query_table, (3) with the CSV writer attached to list input, (4) on the JS engine with array snapshots; pandas dataframes with deep copies; a file-backed sqlite database with recording connection, authorizer log, total_changes and file hash under %d hostile table identifiers (in the query text, as input table, and passed directly to SqliteRecordIterator); query_csv with file fingerprints and an audit-hook log of every open(); the CLI under strace. distinct_nontrivial = distinct executed (query, source) cases.' % len(HOSTILE_IDS),
-        'required': ['list_runs_failing', 'list_runs_succeeding', 'contract_evaluations', 'csv_writer_on_list_runs', 'column_name_list_checks', 'pandas_runs_succeeding', 'pandas_runs_failing', 'sqlite_runs_hostile', 'sqlite_sql_statements_observed', 'sqlite_authorizer_events', 'sqlite_direct_constructor_runs', 'csv_runs_succeeding', 'csv_runs_failing', 'csv_open_events_observed', 'strace_cli_runs', 'strace_opens_of_sources_observed', 'js_cases'],
+        'rule': 'the query generators of C01-C05 (every query shape) plus deliberately failing variants (syntax error, parsing error, runtime error, unknown join table), each executed (1) through rbql.query with probes and snapshots, (2) through the icontract-armed query_table, (3) with the CSV writer attached to list input, (4) on the JS engine with array snapshots; list tables with numbers, None and mutable list-valued cells under %d query texts (stars, UNNEST, every aggregate, list arithmetic and methods, UPDATE, joins) through query_table, the CSV writer as sink, a mutating probe sink and pandas object columns, compared with fully deep snapshots; pandas dataframes with deep copies; a file-backed sqlite database with recording connection, authorizer log, total_changes and file hash under %d hostile table identifiers (in the query text, as input table, and passed directly to SqliteRecordIterator); query_csv with file fingerprints and an audit-hook log of every open(); the CLI under strace. distinct_nontrivial = distinct executed (query, source) cases.' % (len(RICH_QUERIES), len(HOSTILE_IDS)),
+        'required': ['js_rich_csv_sink_runs_succeeding', 'js_rich_table_runs', 'rich_runs_failing', 'rich_runs_succeeding', 'rich_runs:csv-writer-quoted', 'rich_runs:query+mutating-sink', 'rich_runs:pandas', 'list_runs_failing', 'list_runs_succeeding', 'contract_evaluations', 'csv_writer_on_list_runs', 'column_name_list_checks', 'pandas_runs_succeeding', 'pandas_runs_failing', 'sqlite_runs_hostile', 'sqlite_sql_statements_observed', 'sqlite_authorizer_events', 'sqlite_direct_constructor_runs', 'csv_runs_succeeding', 'csv_runs_failing', 'csv_open_events_observed', 'strace_cli_runs', 'strace_opens_of_sources_observed', 'js_cases'],
         'assumptions': ['hostile identifiers are only required not to reach sqlite and not to change the database; the error class they produce is not demanded', 'sqlite3.connect itself opens the database file read-write; the file hash (not the open mode) decides for sqlite'],
     }
 
